@@ -314,78 +314,117 @@ def intact_chains(N, ssz, slots):
     return res
 
 
-def oracle(case, out):
-    """None, or (signature, description) naming the first way in which the implementation's index violates C57."""
+# signatures of the defects the unchanged tree is known to have (known_findings.d/C57.json); a case that shows
+# one of these and also some other violation is reported under the other one
+KNOWN_CLASSES = ("oracle:crash-size-allones", "oracle:crash-cross-linked", "oracle:crash-doublecheck-cross-linked",
+                 "oracle:size-sum-short-chain", "oracle:no-inode", "oracle:key-mix", "oracle:chain-slot-free",
+                 "oracle:version-mix", "oracle:first-slot-mix", "oracle:key-from-metadata", "oracle:key-misplaced")
+
+
+def cross_linked(N, ssz, slots):
+    live = [i for i in range(N) if slots[i]["kind"] == "H" and not is_empty(slots[i]) and sane(slots[i], N, ssz)]
+    return any(slots[i]["next"] in live and (slots[slots[i]["next"]]["k0"], slots[slots[i]["next"]]["k1"]) != (slots[i]["k0"], slots[i]["k1"])
+               for i in live)
+
+
+def violations(case, out):
+    """all the ways in which the implementation's index violates C57 on this image: [(signature, description)]"""
     N, ssz, dbl, slots = parse_case(case)
     if not out.startswith("ok "):
         # why did it die? (only used to give the known defects their own signatures)
         allones = any(s["kind"] == "H" and (s["esz"] == U64 or (isinstance(s["meta"], dict) and s["meta"]["ssz"] == U64))
                       for s in slots)
         if out.startswith("CRASH assert") and allones:
-            return ("oracle:crash-size-allones", "rebuild aborted on an image holding an all-ones size field: " + out[:80])
-        if out.startswith("CRASH exc") and dbl:
-            return ("oracle:crash-doublecheck", "rebuild died in the -S slot validation pass: " + out[:80])
-        return ("oracle:crash", "rebuild did not terminate normally: " + out[:120])
+            return [("oracle:crash-size-allones", "rebuild aborted on an image holding an all-ones size field: " + out[:80])]
+        if out.startswith("CRASH assert") and cross_linked(N, ssz, slots):
+            return [("oracle:crash-cross-linked", "rebuild aborted on an image whose chains are linked across keys: " + out[:80])]
+        if out.startswith("CRASH exc") and dbl and cross_linked(N, ssz, slots):
+            return [("oracle:crash-doublecheck-cross-linked", "rebuild died in the -S slot validation pass on an image whose chains are linked across keys: " + out[:80])]
+        return [("oracle:crash", "rebuild did not terminate normally: " + out[:120])]
     try:
         head, ents, sls, free = parse_out(out)
     except Exception as ex:
-        return ("oracle:unparsable", "unparsable implementation output (%s)" % ex)
+        return [("oracle:unparsable", "unparsable implementation output (%s)" % ex)]
+    v = []
     if len(set(free)) != len(free):
-        return ("oracle:double-free", "a slot is in the free-slot index twice")
+        v.append(("oracle:double-free", "a slot is in the free-slot index twice"))
     freeset = set(free)
     owner = {}
     indexed = {}
     for f in sorted(ents):
         e = ents[f]
         if e["writing"]:
-            return ("oracle:left-locked", "entry %d is still locked for writing after the rebuild" % f)
+            v.append(("oracle:left-locked", "entry %d is still locked for writing after the rebuild" % f))
+            continue
         if e["readers"] or e["wtbf"] or (e["k0"], e["k1"]) == (0, 0):
             continue
         # e is readable: walk its chain
-        chain, cur = [], e["start"]
+        chain, cur, broken = [], e["start"], False
         while cur != -1:
             if not (0 <= cur < N) or cur not in sls or sls[cur]["size"] <= 0:
-                return ("oracle:chain-broken", "entry %d: chain %s leads to slot %d which holds nothing" % (f, chain, cur))
+                v.append(("oracle:chain-broken", "entry %d: chain %s leads to slot %d which holds nothing" % (f, chain, cur)))
+                broken = True; break
             if cur in chain:
-                return ("oracle:chain-cycle", "entry %d: chain %s returns to slot %d" % (f, chain, cur))
+                v.append(("oracle:chain-cycle", "entry %d: chain %s returns to slot %d" % (f, chain, cur)))
+                broken = True; break
             chain.append(cur)
             cur = sls[cur]["next"]
+        if broken:
+            continue
         if not chain:
-            return ("oracle:chain-empty", "entry %d is readable but has no slots" % f)
+            v.append(("oracle:chain-empty", "entry %d is readable but has no slots" % f))
+            continue
+        ondisk = True
         for c in chain:
             if c in owner:
-                return ("oracle:shared-slot", "slot %d is used by entries %d and %d" % (c, owner[c], f))
+                v.append(("oracle:shared-slot", "slot %d is used by entries %d and %d" % (c, owner[c], f)))
             owner[c] = f
             if c in freeset:
-                return ("oracle:chain-slot-free", "entry %d uses slot %d which is also in the free-slot index" % (f, c))
+                v.append(("oracle:chain-slot-free", "entry %d uses slot %d which is also in the free-slot index" % (f, c)))
             d = slots[c]
             if d["kind"] != "H" or is_empty(d) or not sane(d, N, ssz):
-                return ("oracle:slot-not-on-disk", "entry %d uses slot %d which holds no valid cell on disk" % (f, c))
-            if d["psz"] != sls[c]["size"] or d["next"] != sls[c]["next"]:
-                return ("oracle:slice-differs", "entry %d slot %d: index says size/next %d/%d, disk says %d/%d"
-                        % (f, c, sls[c]["size"], sls[c]["next"], d["psz"], d["next"]))
+                v.append(("oracle:slot-not-on-disk", "entry %d uses slot %d which holds no valid cell on disk" % (f, c)))
+                ondisk = False
+            elif d["psz"] != sls[c]["size"] or d["next"] != sls[c]["next"]:
+                v.append(("oracle:slice-differs", "entry %d slot %d: index says size/next %d/%d, disk says %d/%d"
+                          % (f, c, sls[c]["size"], sls[c]["next"], d["psz"], d["next"])))
         total = sum(sls[c]["size"] for c in chain)
         if total != e["swapsz"]:
-            return ("oracle:size-sum", "entry %d: payload sizes of chain %s add up to %d, entry size is %d" % (f, chain, total, e["swapsz"]))
+            if total == e["lesize"] and total < e["swapsz"]:
+                v.append(("oracle:size-sum-short-chain", "entry %d: chain %s ends after %d of the %d bytes the entry declares"
+                          % (f, chain, total, e["swapsz"])))
+            else:
+                v.append(("oracle:size-sum", "entry %d: payload sizes of chain %s add up to %d, entry size is %d" % (f, chain, total, e["swapsz"])))
+        if not ondisk:
+            continue
         if slots[chain[0]]["first"] != chain[0]:
-            return ("oracle:no-inode", "entry %d: chain %s does not start at an inode slot" % (f, chain))
+            v.append(("oracle:no-inode", "entry %d: chain %s does not start at an inode slot" % (f, chain)))
         keys = set((slots[c]["k0"], slots[c]["k1"]) for c in chain)
         if len(keys) > 1:
-            return ("oracle:key-mix", "entry %d: chain %s mixes slots of different keys" % (f, chain))
-        if (e["k0"], e["k1"]) not in keys:
-            return ("oracle:key-from-metadata", "entry %d is indexed under a key none of its slots carries" % f)
+            v.append(("oracle:key-mix", "entry %d: chain %s mixes slots of different keys" % (f, chain)))
+        elif (e["k0"], e["k1"]) not in keys:
+            v.append(("oracle:key-from-metadata", "entry %d is indexed under a key none of its slots carries" % f))
         if fileno(N, e["k0"], e["k1"]) != f:
-            return ("oracle:key-misplaced", "entry %d is indexed under a key that hashes elsewhere" % f)
+            v.append(("oracle:key-misplaced", "entry %d is indexed under a key that hashes elsewhere" % f))
         if len(set(slots[c]["ver"] for c in chain)) > 1:
-            return ("oracle:version-mix", "entry %d: chain %s mixes slots of different versions" % (f, chain))
-        if any(slots[c]["first"] != chain[0] for c in chain):
-            return ("oracle:first-slot-mix", "entry %d: chain %s holds a slot that names another first slot" % (f, chain))
+            v.append(("oracle:version-mix", "entry %d: chain %s mixes slots of different versions" % (f, chain)))
+        if any(slots[c]["first"] != chain[0] for c in chain) and slots[chain[0]]["first"] == chain[0]:
+            v.append(("oracle:first-slot-mix", "entry %d: chain %s holds a slot that names another first slot" % (f, chain)))
         indexed[chain[0]] = ((e["k0"], e["k1"]), chain, total)
     for ino, want in sorted(intact_chains(N, ssz, slots).items()):
         if indexed.get(ino) != want:
-            return ("oracle:intact-not-indexed", "intact, unique chain %s of key %s is not indexed as such (got %s)"
-                    % (want[1], want[0], indexed.get(ino)))
-    return None
+            v.append(("oracle:intact-not-indexed", "intact, unique chain %s of key %s is not indexed as such (got %s)"
+                      % (want[1], want[0], indexed.get(ino))))
+    return v
+
+
+def oracle(case, out):
+    """None, or (signature, description) of a violation of C57 by the implementation's answer"""
+    v = violations(case, out)
+    if not v:
+        return None
+    fresh = [x for x in v if not x[0].startswith(KNOWN_CLASSES)]
+    return (fresh or v)[0]
 
 
 def oracle_sig(case, out):
